@@ -179,6 +179,14 @@ def main(tier, replay):
                                                  ("silent", 6, ("reject", 250)), ("err", 6, ("accept", 5))]):
                 hist = [{"k": "accept", "q": 8}, {"k": fail, "q": 0}, {"k": "global", "q": g}, {"k": back[0], "q": back[1]}, {"k": fail, "q": 0}, {"k": "global", "q": 10}, {"k": "accept", "q": 9}]
                 scs.append(gc_scenario(710001 + i, hist, "mif", rng))
+            # directed (found by the thorough tier): a token-bucket schema under the global-count strategy is GRANTED a negative amount at the
+            # int32 extreme, repeatedly - added as it is the counter wraps around and the bucket no longer bounds anything
+            X = 2147483647
+            for i, hist in enumerate([[("accept", 3), ("accept", -300), ("accept", -X), ("reject", 3), ("reject", 3), ("err", 0)],
+                                      [("accept", -1), ("silent", 0), ("reject", 9), ("accept", 1), ("reject", -X), ("accept", -X)],
+                                      [("accept", 3), ("accept", -300), ("accept", -X), ("reject", 3), ("reject", 3), ("reject", 8)],
+                                      [("accept", -X), ("accept", -X), ("accept", 8), ("accept", -X), ("accept", X), ("accept", 8)]]):
+                scs.append(gc_scenario(720001 + i, [{"k": k, "q": q} for k, q in hist], "tb", rng))
             # no client set at all (limiter server not configured): always the local limit
             scs.append({"id": 900001, "type": "mif", "strategy": "globalAllocate", "local": 3, "global": 10, "localBurst": 0, "globalBurst": 0, "nilClientSets": True,
                         "steps": [{"k": "measure"}, {"k": "sleep", "ms": 5000}, {"k": "measure"}]})
